@@ -412,6 +412,13 @@ def pmap(func, items, procs=16, chunksize=1):
 def tmap(func, items, threads=16):
     """thread-based parallel map for subprocess-bound work (real pytest sessions)"""
     from concurrent.futures import ThreadPoolExecutor
+    # modules that worker functions import lazily are imported here, in the calling thread: threads that import a package concurrently can see
+    # it partially initialised (CPython's import deadlock avoidance)
+    for mod in ("black", "tomllib", "ast", "xml.etree.ElementTree", "fnmatch"):
+        try:
+            __import__(mod)
+        except Exception:  # noqa
+            pass
     items = list(items)
     if len(items) <= 1:
         return [func(x) for x in items]
